@@ -1,13 +1,14 @@
 from .common import COMMON_TB
 
 CFG = dict(
-    coq="Properties/C03.v",
+    coq=["Properties/C03.v", "Properties/C03In.v"],
     areas=["c03", "lzmaenc"],
     # lzmaenc belongs to C01; here only the reference implementation's verdict on the .lzma / raw LZMA2
     # streams the crate wrote counts (the .lzma and LZMA2 clauses of C03)
     oracle_filter={"lzmaenc": r"liblzma"},
     level="proof",
-    theorems_expected=["C03_out_xz", "C03_out_xz_refuted", "C03_out_lzip", "C03_in_lzip"],
+    theorems_expected=["C03_out_xz", "C03_out_xz_refuted", "C03_out_lzip", "C03_in_lzip",
+                       "C03_in_xz", "C03_in_xz_single", "C03_in_xz_exec", "C03_in_xz_exec_single"],
     rule="three-way tie, cases derived from VERIF_SEED by SplitMix64: (1) crate -> reference: files written by XZWriter/LZIPWriter over the "
          "option space of C02 (xz_write/lzip_write: container bytes vs the writer model; oracle: liblzma accepts the file and returns the "
          "input); (2) reference -> crate: files written by liblzma (easy presets 0-9 and extreme; explicit filter chains with custom "
@@ -27,9 +28,11 @@ CFG = dict(
     trusted_base=COMMON_TB + ["liblzma 5.x (liblzma-sys 0.4.8, static, feature parallel) as the reference implementation",
                               "Format/XzSpec.v: my reading of 'The .xz File Format' 1.x and of the lzip manual's file format chapter",
                               "Codec/Lzma2Dec.v, Codec/Lzma1.v as payload decoders of the executable specification and reader models"],
-    assumptions=["PARTIAL: C03_in for XZ (the reader accepts every specification-valid file of the supported feature set) is stated in "
-                 "Properties/C03.v but not proved; it is supported by the correspondence run (specification = liblzma on every file fed; "
-                 "crate decodes what liblzma accepts) and proved for the writer's own output (C02_xz + C03_out_xz) and for LZIP (C03_in_lzip)",
+    assumptions=["C03_in_xz / C03_in_xz_single (Properties/C03In.v): for byte strings (bytes_ok); block decoders abstract with two hypotheses - "
+                 "the crate's chain decoder decodes whatever the specification's decodes (for BCJ chains this is C07/C11 for the reference "
+                 "semantics, not proved here), and the specification's decoder only consumes input; strict specification mode (check types "
+                 "None/CRC32/CRC64/SHA-256: the crate refuses the reserved check IDs liblzma tolerates). C03_in_xz_exec has no codec "
+                 "hypothesis (both sides run the LZMA2Reader model; Delta executed) but the executable specification accepts no BCJ chain",
                  "the .lzma and raw LZMA2 clauses of C03 are not covered by this check",
                  "the theorems are about XzSpec, which is tied to liblzma only by sampling",
                  "C03_out_xz: files below 16 GiB (32-bit backward size field); block decoder hypotheses = C01/C11 for the reference semantics",
